@@ -745,6 +745,8 @@ def hex_arith(fns, src, nmax, lo=0, hi=15, name=None):
         total = bv(0)
         for w in written:
             total = total + (w.end - w.start)
+        if 'padding' in s2.notes:
+            ex.require(s2, s2.notes['padding'] == 0, 'characters other than the digits are emitted (the width / fill flags are honoured)', 'end')
         if val.variant == 'Ok':
             ex.require(s2, total == want, 'number of digits emitted is not min(precision, 2N)', 'end')
         else:
